@@ -53,6 +53,7 @@ class Ctx:
         self.applied = []  # (rule, file, item, before, after)
         self.items = []    # (file, kind, name, sha256 of verbatim text, first line)
         self.cur = ('', '')
+        self.lost_anchors = []
 
     def note(self, rule, before, after):
         self.applied.append({'rule': rule, 'file': self.cur[0], 'item': self.cur[1],
@@ -718,7 +719,9 @@ def apply_fn(text, spec, ctx, assoc_types=None, canary=False):
     for (where, k, anchor, gtext) in spec.anchors:
         pos = nth_find(text, anchor, k)
         if pos < 0:
-            raise ExtractError('fn %s: anchor %r (occurrence %d) not found' % (spec.name, anchor, k))
+            # soft anchor: the ghost block is dropped; if verification then fails the outcome is "undecided", not an alarm
+            ctx.lost_anchors.append('fn %s: anchor %r (occurrence %d)' % (spec.name, anchor, k))
+            continue
         s, e = L.stmt_bounds(text, pos)
         ins.append((s if where == 'before' else e, gtext))
     # loops
@@ -1051,7 +1054,7 @@ def process_template(unit, tpl_path=None, canary=False):
             continue
         raise ExtractError('unknown directive: ' + s)
     text = '\n'.join(out)
-    return text, {'functions': fns, 'rewrites': ctx.applied, 'items': ctx.items, 'unannotated_loops': unannot}
+    return text, {'functions': fns, 'rewrites': ctx.applied, 'items': ctx.items, 'unannotated_loops': unannot, 'lost_anchors': ctx.lost_anchors}
 
 
 def main(argv):
